@@ -79,9 +79,13 @@ type caseX struct {
 	p     params
 	seed  uint64
 	mode  int
-	state int
-	fin   bool // stale contents finite
-	triUp bool // orientation of a TriDense receiver
+	vcls  int // value class (valueclass.go)
+	// exponents of the H/T scaling: per slot, of alpha/f, of the result
+	slotExp          []int
+	alphaExp, outExp int
+	state            int
+	fin              bool // stale contents finite
+	triUp            bool // orientation of a TriDense receiver
 
 	// per run
 	obj  []mat.Matrix
@@ -479,7 +483,7 @@ func (x *caseX) attempt(c *vrt.Ctx, subst []bool, canonRecv bool) (f *failure, o
 	x.prev = x.prevWindow()
 	x.want, x.mag, x.cu, x.absTol = nil, nil, 0, 0
 	x.wantS, x.tolS, x.wantB, x.check, x.noErr = nil, nil, nil, nil, false
-	if !x.op.pats[x.pi].rej && !x.op.model(x) {
+	if !x.op.pats[x.pi].rej && !x.runModel() {
 		return nil, false
 	}
 	return x.runOnce(c), true
@@ -490,6 +494,7 @@ type stats struct {
 	skips      int
 	large, rej int
 	byState    [numStates]int
+	byClass    [5]int
 	calib      map[string]float64
 }
 
@@ -569,6 +574,9 @@ func runCase(c *vrt.Ctx, x *caseX, st *stats) {
 	key := o.name + "|" + kindNames(x.kinds)
 	if len(x.kinds) <= 2 {
 		key += "|" + stateName[x.state]
+	}
+	if x.vcls != clsN {
+		key += "|" + clsName[x.vcls]
 	}
 	if !ok {
 		st.skips++
@@ -677,6 +685,35 @@ func runCase(c *vrt.Ctx, x *caseX, st *stats) {
 			}
 		default:
 			parts = []string{"any"}
+		}
+	}
+	if x.vcls != clsN {
+		// Is the value class part of the cause? Re-run the same tuple and
+		// receiver with ordinary magnitudes.
+		y := &caseX{op: o, pi: x.pi, kinds: x.kinds, state: x.state, mode: x.mode, seed: x.seed, fin: x.fin}
+		if y.prepare(c, 2, 8) {
+			y.val = make([]*ref.M, len(o.slots))
+			okv := vrt.TryFast(func() {
+				y.build(nil, false)
+				for i, ob := range y.obj {
+					y.val[i] = ref.FromAt(ob)
+				}
+			}) == nil
+			if okv {
+				if g, ok2 := y.attempt(c, nil, false); ok2 && g == nil {
+					if len(parts) == 1 && parts[0] == "any" {
+						// The plain representation fails for these values
+						// too: name the kinds, so that a representation
+						// that starts to fail is not hidden behind one
+						// that already does.
+						parts = nil
+						for i := 0; i < ns; i++ {
+							parts = append(parts, slotName(i))
+						}
+					}
+					parts = append(parts, "values="+clsName[x.vcls])
+				}
+			}
 		}
 	}
 	sig := o.name + "|" + strings.Join(parts, ",") + "|" + f.clause
@@ -788,7 +825,7 @@ func kindNames(ks []*kind) string {
 
 func (x *caseX) describe() string {
 	var sb strings.Builder
-	fmt.Fprintf(&sb, "%s pattern %d recv=%s", x.op.name, x.pi, stateName[x.state])
+	fmt.Fprintf(&sb, "%s pattern %d recv=%s values=%s", x.op.name, x.pi, stateName[x.state], clsName[x.vcls])
 	for i, k := range x.kinds {
 		fmt.Fprintf(&sb, " %s=%s(%dx%d)", x.op.slots[i].name, k.name, x.dims[i][0], x.dims[i][1])
 	}
@@ -923,6 +960,9 @@ func (x *caseX) prepare(c *vrt.Ctx, lo, hi int) bool {
 		x.triUp = x.kinds[o.triFrom].triUpper
 	}
 	if o.prm != nil && !o.prm(g, x) {
+		return false
+	}
+	if x.vcls != clsN && !x.applyClass(g) {
 		return false
 	}
 	if o.fixup != nil {
